@@ -456,7 +456,26 @@ func (p *Parser) parseDeclaration() GrammarType {
 			p.prevEnd = (tt == RightBraceToken)
 			return DeclarationGrammar
 		} else if tt == LeftBraceToken && p.level == 0 && p.isStylesheet {
-			// nested ruleset
+			// nested ruleset, remove whitespace around ,>+~ and in attribute selectors as for a qualified rule
+			j := 0
+			inAttrSel := false
+			isCombinator := func(t Token) bool {
+				return len(t.Data) == 1 && (t.Data[0] == ',' || t.Data[0] == '>' || t.Data[0] == '+' || t.Data[0] == '~')
+			}
+			for i, t := range p.buf {
+				if t.TokenType == WhitespaceToken {
+					if inAttrSel || j == 0 || isCombinator(p.buf[j-1]) || i+1 < len(p.buf) && isCombinator(p.buf[i+1]) {
+						continue
+					}
+				} else if t.TokenType == LeftBracketToken {
+					inAttrSel = true
+				} else if t.TokenType == RightBracketToken {
+					inAttrSel = false
+				}
+				p.buf[j] = t
+				j++
+			}
+			p.buf = p.buf[:j]
 			p.tt = WhitespaceToken
 			p.data = emptyBytes
 			p.state = append(p.state, (*Parser).parseQualifiedRuleDeclarationList)
